@@ -644,6 +644,11 @@ namespace bloch::update {
                       << std::endl;
             return false;
         }
+        if (!parseSemVer(*latest).valid) {
+            std::cerr << "The latest release tag '" << *latest
+                      << "' is not a version number; not updating." << std::endl;
+            return false;
+        }
         if (hasLatest(currentVersion, *latest)) {
             std::cout << "You already have the latest Bloch release (" << *latest << ")."
                       << std::endl;
